@@ -1,10 +1,286 @@
-(* Proofs for the mutable proto store model. *)
+(* Invariant preservation by every event of the (repaired) mutable proto
+   store model, and the property theorems derived from the invariant. *)
 From Coq Require Import Lia.
-From VF Require Import Store.Model Store.Spec.
+From VF Require Import Store.Model Store.Spec Store.Lemmas Store.Invariant.
 Open Scope N_scope.
 
-Lemma init_quiescent : quiescent init.
+(* ---- what the counting part gives ------------------------------------------------------ *)
+
+Lemma ref_bound : forall s g hid, Cnt s -> s_refs s g = Some hid -> (g < s_nextg s)%nat.
 Proof.
-  repeat split; cbn; try discriminate; auto.
-  intros w (g & gt & H & _). discriminate.
+  intros s g hid K H. destruct (Nat.lt_ge_cases g (s_nextg s)) as [Hlt | Hge]; [exact Hlt|].
+  destruct (k_bound s K g Hge) as (_ & Hr). congruence.
+Qed.
+
+Lemma get_bound : forall s g gt, Cnt s -> s_gets s g = Some gt -> (g < s_nextg s)%nat.
+Proof.
+  intros s g gt K H. destruct (Nat.lt_ge_cases g (s_nextg s)) as [Hlt | Hge]; [exact Hlt|].
+  destruct (k_bound s K g Hge) as (Hg & _). congruence.
+Qed.
+
+Lemma holder_in_map : forall s g hid, Inv s -> (g < s_nextg s)%nat -> holds s hid g = true ->
+  in_map s hid /\ (0 < h_use (hd s hid))%nat.
+Proof.
+  intros s g hid (C & _ & K) Hlt Hh.
+  assert (0 < h_use (hd s hid))%nat as Hu.
+  { rewrite (k_use s K hid). unfold holders. apply (count_pos _ _ g); assumption. }
+  split; [apply (c_active_in_map s C); left; exact Hu | exact Hu].
+Qed.
+
+Lemma ref_in_map : forall s g hid, Inv s -> s_refs s g = Some hid ->
+  in_map s hid /\ (0 < h_use (hd s hid))%nat.
+Proof.
+  intros s g hid I H. pose proof I as (_ & _ & K). apply (holder_in_map s g hid I (ref_bound s g hid K H)).
+  unfold holds. rewrite H, Nat.eqb_refl. reflexivity.
+Qed.
+
+Lemma get_existing_in_map : forall s g gt hid, Inv s -> s_gets s g = Some gt -> g_existing gt = Some hid ->
+  in_map s hid /\ (0 < h_use (hd s hid))%nat.
+Proof.
+  intros s g gt hid I H He. pose proof I as (_ & _ & K). apply (holder_in_map s g hid I (get_bound s g gt K H)).
+  unfold holds. rewrite H, He, Nat.eqb_refl. apply orb_true_r.
+Qed.
+
+(* ---- ERead -------------------------------------------------------------------------------- *)
+
+Lemma step_read_inv : forall g ok s, Inv s -> Inv (fst (step_read g ok s)).
+Proof.
+  intros g ok s I. unfold step_read.
+  destruct (s_gets s g) as [gt|] eqn:Hg; [|exact I].
+  destruct (g_read gt); try exact I. cbn [fst].
+  set (gt' := mkG _ _ _ _ _ _). set (s' := set_gets s _).
+  destruct I as (C & MA & K).
+  assert (E : core_eq s s').
+  { repeat split; try reflexivity. intros g0. unfold writes_of, s'. cbn. unfold updn.
+    destruct (Nat.eqb_spec g0 g) as [E0|E0]; [subst g0; rewrite Hg; reflexivity | reflexivity]. }
+  split; [apply (core_eq_core s s' E C)|]. split; [apply (core_eq_map_active s s' None E MA)|].
+  constructor.
+  - intros g0 Hge. cbn in Hge. pose proof (get_bound s g gt K Hg).
+    destruct (k_bound s K g0 Hge) as (B1 & B2). split; [|exact B2]. cbn. rewrite updn_other by lia. exact B1.
+  - intros g0 H. cbn in H. cbn. unfold updn in H. destruct (Nat.eqb_spec g0 g) as [E0|Hne].
+    + subst g0. apply (k_excl s K g). congruence.
+    + apply (k_excl s K g0 H).
+  - intros x. change (hd s' x) with (hd s x). rewrite (k_use s K x). unfold holders. change (s_nextg s') with (s_nextg s).
+    symmetry. apply count_ext. intros g0 _. unfold holds. cbn. unfold updn.
+    destruct (Nat.eqb_spec g0 g) as [E0|E0]; [subst g0; rewrite Hg; reflexivity | reflexivity].
+Qed.
+
+(* ---- ERel --------------------------------------------------------------------------------- *)
+
+Definition dirty_upd (hid : nat) (tok : N) (s : state) : state :=
+  set_latest (upd_handle s hid (fun h => set_cv (set_msg h (h_msg (hd s hid) ++ [tok])) (h_cv h + 1)))
+             (updN (s_latest s) (h_dig (hd s hid)) (h_msg (hd s hid) ++ [tok])).
+
+Lemma dirty_upd_core : forall hid tok s,
+  Core s -> map_active s -> in_map s hid -> (0 < h_use (hd s hid))%nat ->
+  Core (dirty_upd hid tok s) /\ map_active (dirty_upd hid tok s) /\ in_map (dirty_upd hid tok s) hid.
+Proof.
+  intros hid tok s C MA Hin Hu. set (s' := dirty_upd hid tok s).
+  assert (Hlt : (hid < s_nexth s)%nat) by (destruct (c_map s C _ _ Hin); assumption).
+  assert (Hnq : ~ In hid (s_queue s)) by (intros Hq; destruct (c_queue s C hid Hq); lia).
+  assert (Hf : forall x, h_dig (hd s' x) = h_dig (hd s x) /\ h_use (hd s' x) = h_use (hd s x) /\
+                         h_wv (hd s' x) = h_wv (hd s x) /\ h_writing (hd s' x) = h_writing (hd s x) /\
+                         (x <> hid -> hd s' x = hd s x)).
+  { intros x. unfold s', dirty_upd, upd_handle. cbn. unfold updn. destruct (Nat.eqb_spec x hid) as [E|E]; cbn.
+    - subst x. repeat split; try reflexivity. intros H; contradiction.
+    - repeat split; reflexivity. }
+  assert (Hh : h_cv (hd s' hid) = h_cv (hd s hid) + 1 /\ h_msg (hd s' hid) = h_msg (hd s hid) ++ [tok]).
+  { unfold s', dirty_upd, upd_handle. cbn. rewrite updn_same. cbn. split; reflexivity. }
+  destruct Hh as (Hcv & Hmsg).
+  assert (Hm : forall x, in_map s' x <-> in_map s x).
+  { intros x. unfold in_map. destruct (Hf x) as (Ed & _). rewrite Ed. reflexivity. }
+  assert (Hact : forall x, active s' x <-> active s x).
+  { intros x. unfold active. destruct (Hf x) as (_ & Eu & _ & Ew & _). rewrite Eu, Ew. reflexivity. }
+  split.
+  - constructor.
+    + intros d x H. destruct (Hf x) as (Ed & _). rewrite Ed. apply (c_map s C d x H).
+    + intros x Hx. cbn in Hx. destruct (Hf x) as (_ & _ & _ & _ & E). rewrite E by lia. apply (c_fresh s C x Hx).
+    + intros x Ha. apply Hm. apply (c_active_in_map s C). apply Hact. exact Ha.
+    + apply (c_queue_nodup s C).
+    + intros x Hx. cbn in Hx. assert (x <> hid) by (intros ->; contradiction).
+      destruct (Hf x) as (_ & _ & _ & _ & E). rewrite E by assumption. apply (c_queue s C x Hx).
+    + intros x. destruct (Nat.eq_dec x hid) as [->|Hne].
+      * destruct (Hf hid) as (_ & _ & Ewv & _). rewrite Ewv, Hcv. pose proof (c_ver s C hid). lia.
+      * destruct (Hf x) as (_ & _ & _ & _ & E). rewrite E by assumption. apply (c_ver s C).
+    + intros g gt w Hg Hw. destruct (c_write s C g gt w Hg Hw) as (W1 & W2 & W3 & W4 & W5).
+      destruct (Nat.eq_dec (w_h w) hid) as [E|Hne].
+      * destruct (Hf (w_h w)) as (Ed & _ & Ewv & Ew & _). rewrite Ed, Ewv, Ew. rewrite E in *. rewrite Hcv.
+        repeat split; try assumption; lia.
+      * destruct (Hf (w_h w)) as (_ & _ & _ & _ & E). rewrite E by assumption. repeat split; assumption.
+    + apply (c_write_nodup s C).
+    + intros x g Hx. destruct (Hf x) as (_ & _ & _ & Ew & _). rewrite Ew in Hx. apply (c_writing s C x g Hx).
+    + intros d H. cbn in H. cbn. unfold updN. destruct (N.eqb_spec d (h_dig (hd s hid))) as [E|E].
+      * subst d. unfold in_map in Hin. congruence.
+      * apply (c_absent s C d H).
+    + intros d x H. cbn in H. destruct (c_present s C d x H) as (P1 & P2).
+      destruct (Nat.eq_dec x hid) as [->|Hne].
+      * destruct (c_map s C d hid H) as (Ed & _). destruct (Hf hid) as (_ & _ & Ewv & _).
+        rewrite Ewv, Hcv, Hmsg. cbn. rewrite <- Ed, updN_same. split; [reflexivity|].
+        pose proof (c_ver s C hid). lia.
+      * destruct (Hf x) as (_ & _ & _ & _ & E). rewrite E by assumption. cbn.
+        rewrite updN_other; [split; assumption|].
+        intros Ed. apply Hne. unfold in_map in Hin. rewrite <- Ed in Hin. congruence.
+  - split; [|apply Hm; exact Hin].
+    intros x _ Hx. apply Hact. apply (MA x); [discriminate | apply Hm; exact Hx].
+Qed.
+
+Lemma step_rel_inv : forall g dirty tok s, Inv s -> Inv (fst (step_rel repaired g dirty tok s)).
+Proof.
+  intros g dirty tok s I. unfold step_rel.
+  destruct (s_refs s g) as [hid|] eqn:Hr; [|exact I]. cbn [fst v_bump repaired].
+  destruct (ref_in_map s g hid I Hr) as (Hin & Hu). destruct I as (C & MA & K).
+  set (s1 := if dirty then _ else s).
+  assert (H1 : Core s1 /\ map_active s1 /\ in_map s1 hid /\ s_gets s1 = s_gets s /\ s_refs s1 = s_refs s /\
+               s_nextg s1 = s_nextg s /\ forall x, h_use (hd s1 x) = h_use (hd s x)).
+  { unfold s1. destruct dirty.
+    - change (set_latest _ _) with (dirty_upd hid tok s).
+      destruct (dirty_upd_core hid tok s C MA Hin Hu) as (A & B & D).
+      split; [exact A|]. split; [exact B|]. split; [exact D|]. do 3 (split; [reflexivity|]).
+      intros x. unfold dirty_upd, upd_handle. cbn. unfold updn. destruct (Nat.eqb_spec x hid) as [E|E]; [subst x|]; reflexivity.
+    - split; [exact C|]. split; [exact MA|]. split; [exact Hin|]. do 3 (split; [reflexivity|]). reflexivity. }
+  destruct H1 as (C1 & MA1 & Hin1 & Eg1 & Er1 & En1 & Eu1).
+  set (s2 := set_refs s1 _).
+  assert (E12 : core_eq s1 s2) by (repeat split; reflexivity).
+  pose proof (core_eq_core s1 s2 E12 C1) as C2.
+  pose proof (core_eq_map_active s1 s2 None E12 MA1) as MA2.
+  assert (Hin2 : in_map s2 hid) by (apply (core_eq_in_map s1 s2 hid E12); exact Hin1).
+  destruct (decrease_use_core hid s2 C2 MA2 Hin2) as (C3 & MA3).
+  split; [exact C3|]. split; [exact MA3|].
+  unfold decrease_use in *. fold roq in *. fold (dec_only hid s2) in *.
+  destruct (roq_frame hid (dec_only hid s2)) as (Fh & _ & Fg & Fr & _ & _ & Fn).
+  assert (Egets : s_gets (roq hid (dec_only hid s2)) = s_gets s) by (rewrite Fg; exact Eg1).
+  assert (Erefs : s_refs (roq hid (dec_only hid s2)) = updn (s_refs s) g None).
+  { rewrite Fr. cbn. rewrite Er1. reflexivity. }
+  assert (Enext : s_nextg (roq hid (dec_only hid s2)) = s_nextg s) by (rewrite Fn; exact En1).
+  assert (Euse : forall x, h_use (hd (roq hid (dec_only hid s2)) x) =
+                           if Nat.eqb x hid then pred (h_use (hd s hid)) else h_use (hd s x)).
+  { intros x. rewrite Fh. unfold dec_only, upd_handle. cbn. unfold updn.
+    destruct (Nat.eqb_spec x hid) as [E|E]; cbn; [rewrite Eu1; reflexivity | apply Eu1]. }
+  assert (Hgnone : s_gets s g = None).
+  { destruct (s_gets s g) eqn:E; [|reflexivity]. assert (s_refs s g = None) by (apply (k_excl s K); congruence). congruence. }
+  pose proof (ref_bound s g hid K Hr) as Hglt.
+  constructor.
+  - intros g0 Hge. rewrite Enext in Hge. rewrite Egets, Erefs. destruct (k_bound s K g0 Hge) as (B1 & B2).
+    split; [exact B1|]. unfold updn. destruct (Nat.eqb g0 g); [reflexivity | exact B2].
+  - intros g0 H. rewrite Egets in H. rewrite Erefs. unfold updn. destruct (Nat.eqb g0 g); [reflexivity | apply (k_excl s K g0 H)].
+  - intros x. rewrite Euse. unfold holders. rewrite Enext.
+    assert (Hholds : forall g0, g0 <> g -> holds (roq hid (dec_only hid s2)) x g0 = holds s x g0).
+    { intros g0 Hne. unfold holds. rewrite Egets, Erefs. rewrite updn_other by exact Hne. reflexivity. }
+    assert (Hafter : holds (roq hid (dec_only hid s2)) x g = false).
+    { unfold holds. rewrite Egets, Erefs, updn_same, Hgnone. reflexivity. }
+    destruct (Nat.eqb_spec x hid) as [E|E].
+    + subst x. assert (Hbefore : holds s hid g = true) by (unfold holds; rewrite Hr, Nat.eqb_refl; reflexivity).
+      pose proof (count_off (holds s hid) (holds (roq hid (dec_only hid s2)) hid) (s_nextg s) g Hglt Hbefore Hafter Hholds) as Hc.
+      rewrite (k_use s K hid). unfold holders. lia.
+    + rewrite (k_use s K x). unfold holders. symmetry. apply count_ext. intros g0 _.
+      destruct (Nat.eq_dec g0 g) as [->|Hne]; [|apply Hholds; exact Hne].
+      rewrite Hafter. unfold holds. rewrite Hr, Hgnone. apply Nat.eqb_neq in E. rewrite Nat.eqb_sym, E. reflexivity.
+Qed.
+
+(* ---- EPut ---------------------------------------------------------------------------------- *)
+
+Lemma take_write_spec : forall d m ws w rest,
+  take_write d m ws = Some (w, rest) -> exists l1 l2, ws = l1 ++ w :: l2 /\ rest = l1 ++ l2.
+Proof.
+  intros d m ws. induction ws as [|a t IH]; intros w rest H; [discriminate|]. cbn in H.
+  destruct (write_matches d m a).
+  - inversion H; subst. exists [], rest. split; reflexivity.
+  - destruct (take_write d m t) as [[x t']|] eqn:E; [|discriminate]. inversion H; subst.
+    destruct (IH _ _ eq_refl) as (l1 & l2 & E1 & E2). exists (a :: l1), l2. subst. split; reflexivity.
+Qed.
+
+Definition put_upd (g : nat) (ok : bool) (w : write) (gt' : get) (s : state) : state :=
+  set_gets
+    (upd_handle (if ok then set_backing s (updN (s_backing s) (w_dig w) (w_msg w)) else s) (w_h w)
+       (fun h => set_writing (if ok then set_wv h (w_ver w) else h) None))
+    (updn (s_gets s) g (Some gt')).
+
+Lemma put_upd_core : forall g ok w gt gt' l1 l2 s,
+  Core s -> map_active s ->
+  s_gets s g = Some gt -> g_writes gt = l1 ++ w :: l2 -> g_writes gt' = l1 ++ l2 ->
+  Core (put_upd g ok w gt' s) /\ map_active_except (put_upd g ok w gt' s) (Some (w_h w)) /\
+  in_map (put_upd g ok w gt' s) (w_h w).
+Proof.
+  intros g ok w gt gt' l1 l2 s C MA Hg Hws Hws'. set (hid := w_h w). set (s' := put_upd g ok w gt' s).
+  assert (Hw : In w (g_writes gt)) by (rewrite Hws; apply in_or_app; right; left; reflexivity).
+  destruct (c_write s C g gt w Hg Hw) as (W1 & W2 & W3 & W4 & W5). fold hid in W1, W2, W3, W4, W5.
+  assert (Hin : in_map s hid) by (apply (c_active_in_map s C); right; right; rewrite W1; discriminate).
+  assert (Hlt : (hid < s_nexth s)%nat) by (destruct (c_map s C _ _ Hin); assumption).
+  assert (Hnq : ~ In hid (s_queue s)) by (intros Hq; destruct (c_queue s C hid Hq) as (_ & Q & _); congruence).
+  pose proof (c_write_nodup s C g gt Hg) as Hnd. rewrite Hws, map_app in Hnd. cbn in Hnd.
+  apply NoDup_remove in Hnd. destruct Hnd as (Hnd' & Hnotin). rewrite <- map_app in Hnd', Hnotin. fold hid in Hnotin.
+  assert (Hrest : forall w', In w' (l1 ++ l2) -> In w' (g_writes gt) /\ w_h w' <> hid).
+  { intros w' Hw'. split.
+    - rewrite Hws. apply in_app_or in Hw'. apply in_or_app. destruct Hw'; [left | right; right]; assumption.
+    - intros E. apply Hnotin. rewrite <- E. apply in_map. exact Hw'. }
+  assert (Hf : forall x, h_dig (hd s' x) = h_dig (hd s x) /\ h_use (hd s' x) = h_use (hd s x) /\
+                         h_cv (hd s' x) = h_cv (hd s x) /\ h_msg (hd s' x) = h_msg (hd s x) /\
+                         (x <> hid -> hd s' x = hd s x)).
+  { intros x. unfold s', put_upd, upd_handle. destruct ok; cbn; unfold updn; fold hid;
+      destruct (Nat.eqb_spec x hid) as [E|E]; cbn; try subst x; repeat split; try reflexivity; intros; contradiction. }
+  assert (Hh : h_writing (hd s' hid) = None /\ h_wv (hd s' hid) = (if ok then w_ver w else h_wv (hd s hid))).
+  { unfold s', put_upd, upd_handle. destruct ok; cbn; fold hid; rewrite updn_same; cbn; split; reflexivity. }
+  destruct Hh as (Hwr & Hwv).
+  assert (Hm : forall x, in_map s' x <-> in_map s x).
+  { intros x. unfold in_map. destruct (Hf x) as (Ed & _). rewrite Ed. unfold s', put_upd. destruct ok; reflexivity. }
+  assert (Hmap : s_map s' = s_map s) by (unfold s', put_upd; destruct ok; reflexivity).
+  assert (Hq : s_queue s' = s_queue s) by (unfold s', put_upd; destruct ok; reflexivity).
+  assert (Hlat : s_latest s' = s_latest s) by (unfold s', put_upd; destruct ok; reflexivity).
+  assert (Hnh : s_nexth s' = s_nexth s) by (unfold s', put_upd; destruct ok; reflexivity).
+  assert (Hgets : s_gets s' = updn (s_gets s) g (Some gt')) by (unfold s', put_upd; destruct ok; reflexivity).
+  assert (Hback : forall d, s_backing s' d = if ok && (d =? w_dig w) then w_msg w else s_backing s d).
+  { intros d. unfold s', put_upd. destruct ok; cbn; [unfold updN; reflexivity | reflexivity]. }
+  assert (Hact : forall x, active s' x -> active s x).
+  { intros x. unfold active. rewrite Hq. destruct (Hf x) as (_ & Eu & _ & _ & E). rewrite Eu.
+    intros [H | [H | H]]; [left; exact H | right; left; exact H|].
+    destruct (Nat.eq_dec x hid) as [->|Hne]; [rewrite Hwr in H; contradiction | rewrite E in H by exact Hne; right; right; exact H]. }
+  (* pending writes after the step *)
+  assert (Hpend : forall g0 gt0 w0, s_gets s' g0 = Some gt0 -> In w0 (g_writes gt0) ->
+            exists gt1, s_gets s g0 = Some gt1 /\ In w0 (g_writes gt1) /\ w_h w0 <> hid).
+  { intros g0 gt0 w0 H0 Hw0. rewrite Hgets in H0. unfold updn in H0. destruct (Nat.eqb_spec g0 g) as [E|E].
+    - subst g0. inversion H0; subst gt0. rewrite Hws' in Hw0. destruct (Hrest w0 Hw0) as (R1 & R2).
+      exists gt. repeat split; assumption.
+    - exists gt0. split; [exact H0|]. split; [exact Hw0|]. intros Eh.
+      destruct (c_write s C g0 gt0 w0 H0 Hw0) as (X & _). rewrite Eh, W1 in X. congruence. }
+  split; [|split].
+  - constructor.
+    + intros d x H. rewrite Hmap in H. destruct (Hf x) as (Ed & _). rewrite Ed, Hnh. apply (c_map s C d x H).
+    + intros x Hx. rewrite Hnh in Hx. destruct (Hf x) as (_ & _ & _ & _ & E). rewrite E by lia. apply (c_fresh s C x Hx).
+    + intros x Ha. apply Hm. apply (c_active_in_map s C). apply Hact. exact Ha.
+    + rewrite Hq. apply (c_queue_nodup s C).
+    + intros x Hx. rewrite Hq in Hx. assert (x <> hid) by (intros ->; contradiction).
+      destruct (Hf x) as (_ & _ & _ & _ & E). rewrite E by assumption. apply (c_queue s C x Hx).
+    + intros x. destruct (Nat.eq_dec x hid) as [->|Hne].
+      * destruct (Hf hid) as (_ & _ & Ecv & _). rewrite Hwv, Ecv. destruct ok; [exact W4 | apply (c_ver s C)].
+      * destruct (Hf x) as (_ & _ & _ & _ & E). rewrite E by assumption. apply (c_ver s C).
+    + intros g0 gt0 w0 H0 Hw0. destruct (Hpend g0 gt0 w0 H0 Hw0) as (gt1 & G1 & G2 & G3).
+      destruct (Hf (w_h w0)) as (_ & _ & _ & _ & E). rewrite E by exact G3. apply (c_write s C g0 gt1 w0 G1 G2).
+    + intros g0 gt0 H0. rewrite Hgets in H0. unfold updn in H0. destruct (Nat.eqb_spec g0 g) as [E|E].
+      * inversion H0; subst. rewrite Hws'. exact Hnd'.
+      * apply (c_write_nodup s C g0 gt0 H0).
+    + intros x g0 Hx. assert (x <> hid) by (intros ->; rewrite Hwr in Hx; discriminate).
+      destruct (Hf x) as (_ & _ & _ & _ & E). rewrite E in Hx by assumption.
+      destruct (c_writing s C x g0 Hx) as (gt0 & w0 & G1 & G2 & G3). rewrite Hgets. unfold updn.
+      destruct (Nat.eqb_spec g0 g) as [Eg|Eg].
+      * subst g0. rewrite Hg in G1. inversion G1; subst gt0. exists gt', w0. split; [reflexivity|]. split; [|exact G3].
+        rewrite Hws'. rewrite Hws in G2. apply in_app_or in G2. apply in_or_app.
+        destruct G2 as [G2 | [G2 | G2]]; [left; exact G2 | subst w0; contradiction | right; exact G2].
+      * exists gt0, w0. repeat split; assumption.
+    + intros d H. rewrite Hmap in H. rewrite Hback, Hlat.
+      destruct (N.eqb_spec d (w_dig w)) as [E|E]; [|rewrite andb_false_r; apply (c_absent s C d H)].
+      subst d. rewrite W2 in H. unfold in_map in Hin. congruence.
+    + intros d x H. rewrite Hmap in H. rewrite Hback, Hlat. destruct (c_present s C d x H) as (P1 & P2).
+      destruct (c_map s C d x H) as (Ed & _).
+      destruct (Nat.eq_dec x hid) as [->|Hne].
+      * destruct (Hf hid) as (_ & _ & Ecv & Em & _). rewrite Hwv, Ecv, Em. split; [exact P1|].
+        destruct ok; cbn [andb].
+        -- intros Ev. rewrite <- Ed, W2, N.eqb_refl. rewrite (W5 Ev). apply P1. lia.
+        -- intros Ev. lia.
+      * destruct (Hf x) as (_ & _ & _ & _ & E). rewrite E by assumption.
+        destruct (N.eqb_spec d (w_dig w)) as [E2|E2]; [|rewrite andb_false_r; split; assumption].
+        exfalso. apply Hne. subst d. rewrite W2 in H. unfold in_map in Hin. congruence.
+  - intros x Hex Hx. assert (Hne : x <> hid) by congruence. apply Hm in Hx.
+    destruct (Hf x) as (_ & _ & _ & _ & E). unfold active. rewrite Hq, E by assumption.
+    apply (MA x); [discriminate | exact Hx].
+  - apply Hm. exact Hin.
 Qed.
